@@ -172,7 +172,11 @@ ConnErr(kind) ==
     IN /\ n' = i
        /\ g' = p.g
        /\ last' = [ev |-> "err", kind |-> kind, t |-> now, i |-> i.st, p |-> p.st,
-                   count |-> IF Counts(kind) /\ WinEnabled /\ HasStrategies THEN Count(p.g.hist, now) ELSE 0]
+                   count |-> IF Counts(kind) /\ WinEnabled /\ HasStrategies THEN Count(p.g.hist, now) ELSE 0,
+                   why |-> IF ~HasStrategies THEN "breaker-not-installed"
+                           ELSE IF ~WinEnabled THEN "breaker-disabled"
+                           ELSE IF ~Counts(kind) THEN "not-a-connection-error"
+                           ELSE IF PFires(p.g.hist) THEN "threshold-reached" ELSE "below-threshold"]
        /\ UNCHANGED now
 
 ProbeOK ==
@@ -180,18 +184,22 @@ ProbeOK ==
         p == PRecover(n.st, g, now)
     IN /\ n' = i
        /\ g' = p.g
-       /\ last' = [ev |-> "probe", ok |-> TRUE, t |-> now, i |-> i.st, p |-> p.st]
+       /\ last' = [ev |-> "probe", ok |-> TRUE, t |-> now, i |-> i.st, p |-> p.st,
+                   why |-> IF n.st = Up THEN "already-up"
+                           ELSE CASE Policy = "hard" -> IF PMayRecover(g, now) THEN "cooldown-over" ELSE "cooling-down"
+                                  [] Policy = "gradual" -> IF PMayRecover(g, now) THEN "penalty-served" ELSE "penalty-pending"
+                                  [] OTHER -> "probe-passed"]
        /\ UNCHANGED now
 
 ProbeFail ==
     /\ n' = IProbeFailed(n)
     /\ g' = PProbeFailed(n.st, g)
-    /\ last' = [ev |-> "probe", ok |-> FALSE, t |-> now, i |-> n.st, p |-> n.st]
+    /\ last' = [ev |-> "probe", ok |-> FALSE, t |-> now, i |-> n.st, p |-> n.st, why |-> "probe-failed"]
     /\ UNCHANGED now
 
 Tick(d) == /\ now + d <= MaxTime
            /\ now' = now + d
-           /\ last' = [ev |-> "tick", d |-> d, t |-> now + d, i |-> n.st, p |-> n.st]
+           /\ last' = [ev |-> "tick", d |-> d, t |-> now + d, i |-> n.st, p |-> n.st, why |-> "clock-advance"]
            /\ UNCHANGED <<n, g>>
 
 FNext == \/ \E k \in ErrKinds : ConnErr(k)
@@ -213,16 +221,18 @@ StatusIsP == last.ev # "init" => last.i = last.p
 
 (* C26: exactly-when, stated directly on the events *)
 FusedExactlyWhen ==
-    [][\A k \in ErrKinds : ConnErr(k) =>
-          /\ (n.st = Up /\ n'.st = Down) <=> (n.st = Up /\ Counts(k) /\ HasStrategies /\ WinEnabled
+    [][last'.ev = "err" =>
+          /\ (n.st = Up /\ n'.st = Down) <=> (n.st = Up /\ Counts(last'.kind) /\ HasStrategies /\ WinEnabled
                                                /\ Count(g'.hist, now) >= Min)
-          /\ n.st = Down => n'.st = Down]_fvars
+          /\ n.st = Down => n'.st = Down
+          /\ ~Counts(last'.kind) => n' = n]_fvars
 
 (* C27: never up before the condition; up as soon as it holds and the probe passes *)
+IsPass == last'.ev = "probe" /\ last'.ok
 NoEarlyRecovery ==
-    [][(n.st = Down /\ n'.st = Up) => (ProbeOK /\ PMayRecover(g, now))]_fvars
+    [][(n.st = Down /\ n'.st = Up) => (IsPass /\ PMayRecover(g, now))]_fvars
 RecoversWhenDue ==
-    [][(ProbeOK /\ n.st = Down /\ PMayRecover(g, now)) => n'.st = Up]_fvars
+    [][(IsPass /\ n.st = Down /\ PMayRecover(g, now)) => n'.st = Up]_fvars
 
 (* C27 gradual: the code's countdown is need - succ; an Up replica has no pending countdown *)
 CountdownIsNeed ==
@@ -235,7 +245,7 @@ HardFuseTime ==
 
 (* C27 gradual: penalty grows exactly on a bad recovery and is reset otherwise *)
 PenaltyGrowth ==
-    [][\A k \in ErrKinds : (ConnErr(k) /\ Policy = "gradual" /\ n.st = Up /\ n'.st = Down) =>
+    [][(last'.ev = "err" /\ Policy = "gradual" /\ n.st = Up /\ n'.st = Down) =>
           IF now - n.lastRec <= 2 * PingPeriod
           THEN n'.errCnt = n.errCnt + 1 /\ n'.cnt = Cap(Pen(n.errCnt + 1))
           ELSE n'.errCnt = InitErr /\ n'.cnt = 0]_fvars
@@ -244,7 +254,9 @@ PenaltyGrowth ==
 (* non-decreasing), so two states that differ only in such timestamps have the same future: the   *)
 (* VIEW keeps the in-window part of the history only.                                             *)
 InWindow(h, t) == SelectSeq(h, LAMBDA x : x > t - W)
-FView == <<now, n, [g EXCEPT !.hist = InWindow(g.hist, now)], last>>
+(* `last` is never read by an action (it only reports), so it is left out of the view as well; the   *)
+(* action properties above are evaluated on every transition regardless of the view.              *)
+FView == <<now, n, [g EXCEPT !.hist = InWindow(g.hist, now)]>>
 CONSTANT MaxLevel      \* model checking only: bound on the bad-recovery level explored
 FConstraint == /\ n.ring.all <= Min + 1
                /\ n.errCnt <= MaxLevel
